@@ -391,6 +391,8 @@ def prepare_attr_value(
     Returns:
         The prepared value.
     """
+    if value is UNCHANGED:
+        return UNCHANGED  # Nothing to prepare: the current value is to be kept.
     value = mutate_value(
         old_value=MISSING,
         new_value=value,
